@@ -6,7 +6,7 @@ import vlib
 from checks import common, handler_common as hc
 
 PROP = "C09"
-FAMILIES = "events,events2".split(",")
+FAMILIES = "events,events2,fstep".split(",")
 
 
 def run(tier, seed, replay, keep):
